@@ -504,6 +504,22 @@ def rule_r4(ctx):
         gn = [x for x in cfg.node_of(top) if x.kind == "test"][0]
         rewrites = [c for c in calls_in(f) if (dotted_of(c.func) or "").endswith("replace_all_uses_with") or (isinstance(c.func, ast.Attribute) and c.func.attr == "remove")]
         ok = ok and len(rewrites) >= 2 and all(cfg.dominates(gn, cfg.nodes_containing(c)[0]) for c in rewrites)
+    # … and one whose input is defined in another graph than the one that lists its output: a graph output has to be defined in its
+    # own graph, and folding the Identity renames a value of the enclosing graph
+    in_name = None
+    for a_ in own_nodes(f.node):
+        if isinstance(a_, ast.Assign) and isinstance(a_.targets[0], ast.Name) and norm(a_.value) == "node.inputs[0]":
+            in_name = a_.targets[0].id
+    exits = [g_ for g_ in own_nodes(f.node) if isinstance(g_, ast.If) and any(isinstance(s_, ast.Return) and norm(s_.value) == "False" for s_ in g_.body)]
+    scoped = in_name is not None and any(
+        isinstance(c_, ast.Compare) and len(c_.ops) == 1 and isinstance(c_.ops[0], (ast.IsNot, ast.Is, ast.NotEq, ast.Eq)) and f"{in_name}.graph" in (norm(c_.left), norm(c_.comparators[0]))
+        for g_ in exits for c_ in ast.walk(g_.test))
+    ctx.check("R4", "identity elimination keeps an Identity from a value of an enclosing graph to a graph output", scoped, f, f.node,
+              "no exit of the elimination compares the graph of the Identity's input with the node's own graph: inside an If branch, `y = Identity(a)` with `a` produced in "
+              "the enclosing graph and `y` the branch output is folded - the branch then lists a value it does not define as its output (the checker rejects the model) "
+              "and the enclosing graph's value is renamed",
+              how="a `return False` exit of _try_eliminate_identity_node tests `<input>.graph` against the node's graph",
+              construct="Identity from an outer-scope value to a graph output is eliminated")
     ctx.check("R4", "identity elimination keeps an Identity from a graph input/initializer to a graph output", bool(ok), f, f.node,
               "an Identity whose input is a graph input (or initializer) and whose output is a graph output can be removed: "
               "the graph output would alias an input, changing the model's interface",
